@@ -79,6 +79,18 @@ FOCUS[8] = ("- THIS ROUND'S FOCUS: the contract between the library and what a c
             "differently.")
 
 
+FOCUS[9] = ("- THIS ROUND'S FOCUS: arithmetic and time semantics. At least one of your two changes must hinge on one of: (i) number handling - "
+            "rounding mode (`round` half-even vs half-up vs `np.round` vs `Decimal`), `int()` vs `floor` vs `//` on negatives, accumulation order "
+            "or a running total replacing a recomputed sum, `sum` vs `math.fsum`/`np.sum`, comparisons with a tolerance (`isclose`, `abs(x) < eps`) "
+            "replacing exact ones or the reverse, `min`/`max`/`sorted` in the presence of NaN or equal keys, negative zero, integer vs float "
+            "division, percent vs fraction, a sign convention, `abs()` in the wrong place, overflow of a fixed-width dtype; (ii) time handling - "
+            "inclusive vs exclusive bounds, `<` vs `<=` at an instant that the workload really reaches, `.date()` / `.normalize()` / `.floor('D')` "
+            "dropping or keeping the time zone or the time of day, comparisons between dates and timestamps, `Timedelta` arithmetic across "
+            "weekends and month ends, frequency aliases, business-day offsets with n=0 vs n=1, 'same day' decided in UTC vs another zone, "
+            "resolution (ns/us/s) of a Timestamp. Prefer a change whose effect is a SMALL numerical or one-period difference rather than an "
+            "exception.")
+
+
 def rnd_of(i):
     m = re.search(r'-r(\d)$', i)
     return int(m.group(1)) if m else 1
